@@ -460,6 +460,8 @@ func checkC17(c *Ctx, r *Report) {
 	ruleTokenTables(c, r, "token-tables", spec)
 	ruleSync(c, r, "sync", spec)
 	ruleAssignTarget(c, r, "assign-target")
+	ruleAssignRHS(c, r, "full-expression-sites")
+	ruleStatementTokens(c, r, "statement-tokens")
 	ruleLexerStops(c, r, "lexer-stops")
 	ruleLexPrimitivesOnly(c, r, "lexer-primitives")
 	ruleLayoutSilent(c, r, "layout", spec)
@@ -476,6 +478,7 @@ func checkC20(c *Ctx, r *Report) {
 	}
 	ruleLayoutSilent(c, r, "layout-silent", spec)
 	ruleStringOpaque(c, r, "string-opaque")
+	ruleStickyTable(c, r, "token-adjacency")
 	ruleLexPrimitivesOnly(c, r, "lexer-primitives")
 	ruleSemicolon(c, r, "semicolon")
 	ruleTokenTables(c, r, "token-tables", spec)
@@ -530,4 +533,159 @@ func checkC20(c *Ctx, r *Report) {
 	}
 	ruleTokenPos(c, r, "token-pos")
 	r.note("equality of the compiled output across all re-renderings of a program (needs the lexer's full semantics); only the layout-handling rules are decided")
+}
+
+// ruleAssignRHS: the right side of an assignment, a var initialiser, the
+// operand of print/eval and the content of parentheses are full expressions:
+// they are parsed at the level at which assignment is enabled, so that
+// `a = b = 1`, `var x = y = 2`, `(a = 1)` are accepted as the grammar says.
+func ruleAssignRHS(c *Ctx, r *Report, rule string) {
+	r.rule(rule, 5, "every place where the grammar has a full expression — right side of '=', var initialiser, print/eval operand, bare expression statement, content of '(' ')' — parses it at the lowest level (the one for which parsePrecedence enables assignment)")
+	m, err := c.emitModel()
+	if err != nil {
+		r.bad(rule, "model", err.Error(), "")
+		return
+	}
+	precVal := map[string]int64{}
+	for _, p := range m.precs {
+		precVal[p.Name] = p.Val
+	}
+	levels := func(key string) ([]int64, bool) {
+		e := m.Entries[key]
+		if e == nil || len(e.Outcomes) == 0 {
+			return nil, false
+		}
+		var out []int64
+		for _, o := range e.Outcomes {
+			_, subs := opsOfTrace(o.Trace)
+			for _, s := range subs {
+				if strings.HasPrefix(s, "E(") {
+					n := strings.TrimSuffix(strings.TrimPrefix(s, "E("), ")")
+					v, ok := precVal[n]
+					if !ok {
+						return nil, false
+					}
+					out = append(out, v)
+				}
+			}
+		}
+		return out, true
+	}
+	full, ok := levels("expr")
+	if !ok || len(full) == 0 {
+		r.bad(rule, "expr", "cannot determine the level of expr()", "")
+		return
+	}
+	want := full[0]
+	site := func(key, what string, min int) {
+		lv, ok := levels(key)
+		if !ok {
+			r.bad(rule, what, "no analysis entry "+key, "")
+			return
+		}
+		bad := false
+		for _, v := range lv {
+			if v != want {
+				bad = true
+			}
+		}
+		pos := ""
+		if e := m.Entries[key]; e != nil && e.Decl != nil {
+			pos = c.pos(e.Decl.Pos())
+		}
+		r.check(!bad && len(lv) >= min, rule, what, fmt.Sprintf("parsed at level %d on all %d paths that have one", want, len(lv)), fmt.Sprintf("%s is parsed at levels %v; the grammar has a full expression there (level %d, where '=' is allowed)", what, lv, want), pos)
+	}
+	for _, row := range m.rules {
+		switch row.Token {
+		case "tIDENT":
+			site(row.Prefix+"@"+row.Token, "right side of '='", 1)
+		case "tLPAREN":
+			site(row.Prefix+"@"+row.Token, "content of parentheses", 1)
+		}
+	}
+	for _, fn := range []string{"varDecl", "printStmt", "exprStmt"} {
+		if m.Entries[fn] != nil {
+			site(fn, fn, 1)
+		} else {
+			r.ok(rule, fn, "inlined into its caller (covered by the statement signatures)")
+		}
+	}
+}
+
+// ruleStatementTokens: the number of tokens each statement form consumes on
+// its diagnostic-free paths is the number the grammar gives it. (A path
+// that takes fewer tokens accepts a source with a piece missing; one that
+// takes more rejects or swallows.)
+func ruleStatementTokens(c *Ctx, r *Report, rule string) {
+	r.rule(rule, 5, "on the diagnostic-free paths of decl() — classified by the instruction the statement ends with — the tokens consumed before/around the sub-expressions are: var NAME [= E] (2 or 3 tokens, 0 or 1 expression); print E and eval E (1 token, 1 expression); a bare expression in a block (0 tokens, 1 expression); def TYPE [NAME] { (3 or 4 tokens before DEFBLOCK); bind TYPE [: SEL] -> TARGET (4 or 6 tokens, never 5: a ':' is always followed by a selector token)")
+	m, err := c.emitModel()
+	if err != nil {
+		r.bad(rule, "model", err.Error(), "")
+		return
+	}
+	e := m.Entries["decl"]
+	if e == nil || len(e.Outcomes) == 0 {
+		r.bad(rule, "decl", "no analysis entry for decl", "")
+		return
+	}
+	got := map[string]map[string]bool{}
+	for _, o := range e.Outcomes {
+		adv, subs, before := 0, 0, -1
+		for _, t := range o.Trace {
+			switch {
+			case t == "adv":
+				adv++
+			case strings.HasPrefix(t, "sub:E("):
+				subs++
+			case t == "DEFBLOCK" && before < 0:
+				before = adv
+			}
+		}
+		class := ""
+		shape := fmt.Sprintf("%d tokens, %d expr", adv, subs)
+		l1 := false
+		if k, isC := o.L.isConst(); isC && k == 1 {
+			l1 = true
+		}
+		switch {
+		case l1:
+			class = "var"
+		case o.LastOp == "opPRINT":
+			class = "print"
+		case o.LastOp == "opPOP":
+			class = "eval-or-bare"
+		case o.LastOp == "opENDBLOCK":
+			class = "def"
+			shape = fmt.Sprintf("%d tokens before DEFBLOCK", before)
+		case o.LastOp == "opBIND":
+			class = "bind"
+		default:
+			class = "other:" + o.LastOp
+		}
+		if got[class] == nil {
+			got[class] = map[string]bool{}
+		}
+		got[class][shape] = true
+	}
+	want := map[string][]string{
+		"var":          {"2 tokens, 0 expr", "3 tokens, 1 expr"},
+		"print":        {"1 tokens, 1 expr"},
+		"eval-or-bare": {"0 tokens, 1 expr", "1 tokens, 1 expr"},
+		"def":          {"3 tokens before DEFBLOCK", "4 tokens before DEFBLOCK"},
+		"bind":         {"4 tokens, 0 expr", "6 tokens, 0 expr"},
+	}
+	pos := ""
+	if e.Decl != nil {
+		pos = c.pos(e.Decl.Pos())
+	}
+	for _, class := range sortedKeys(want) {
+		g := strings.Join(sortedKeys(got[class]), " | ")
+		w := strings.Join(want[class], " | ")
+		r.check(g == w, rule, class, g, fmt.Sprintf("the %s statement consumes [%s] on its diagnostic-free paths; the grammar says [%s]", class, g, w), pos)
+	}
+	for _, class := range sortedKeys(got) {
+		if _, ok := want[class]; !ok {
+			r.bad(rule, class, fmt.Sprintf("decl() has a diagnostic-free path ending in %s that is no statement form of the grammar (%s)", class, strings.Join(sortedKeys(got[class]), " | ")), pos)
+		}
+	}
 }
